@@ -521,6 +521,43 @@ func crashIndex(r *core.Report, cs *crashScope, floor int) {
 				case *ast.IndexExpr:
 					k, ok := intConst(info, x.Index)
 					if !ok {
+						// an index parsed from text (strconv.Atoi / ParseInt) can be negative
+						if id, isID := ast.Unparen(x.Index).(*ast.Ident); isID {
+							if _, isMap := info.TypeOf(x.X).Underlying().(*types.Map); !isMap {
+								if from := parsedSigned(info, ff, id); from != "" {
+									na++
+									name := shortFn(fn)
+									perFn[name+"/parsed"]++
+									key := fmt.Sprintf("idx:%s/parsed#%d(%s[%s])", name, perFn[name+"/parsed"], core.ExprStr(x.X), id.Name)
+									nonNeg := false
+									for _, a := range core.Atoms(core.GuardsAt(info, fd.Body, n)) {
+										be, ok := ast.Unparen(a.Expr).(*ast.BinaryExpr)
+										if !ok {
+											continue
+										}
+										op := be.Op
+										if !a.Pos {
+											op = negOp(op)
+										}
+										l, rr := ast.Unparen(be.X), ast.Unparen(be.Y)
+										if rid, ok := rr.(*ast.Ident); ok && info.ObjectOf(rid) == info.ObjectOf(id) {
+											l, rr = rr, l
+											op = flipOp(op)
+										}
+										if lid, ok := l.(*ast.Ident); ok && info.ObjectOf(lid) == info.ObjectOf(id) {
+											if z, ok := intConst(info, rr); ok && ((op == token.GEQ && z >= 0) || (op == token.GTR && z >= -1)) {
+												nonNeg = true
+											}
+										}
+									}
+									if nonNeg {
+										r.OK(key, p.Pos(n.Pos()), "tested non-negative")
+									} else {
+										r.Bad(key, p.Pos(n.Pos()), fmt.Sprintf("the index %s comes from %s and is used without a non-negative test: text such as \"-1\" makes this index expression panic", id.Name, from))
+									}
+								}
+							}
+						}
 						return true
 					}
 					base, need = x.X, int(k)+1
@@ -634,6 +671,26 @@ func assignedAfter(info *types.Info, body ast.Node, o types.Object, pos token.Po
 		return true
 	})
 	return found
+}
+
+// parsedSigned: the variable is (only) assigned result 0 of strconv.Atoi / ParseInt.
+func parsedSigned(info *types.Info, ff *core.FuncFacts, id *ast.Ident) string {
+	as := ff.Assigns(info.ObjectOf(id))
+	if len(as) == 0 {
+		return ""
+	}
+	from := ""
+	for _, a := range as {
+		if a.Call == nil || a.Idx != 0 {
+			return ""
+		}
+		callee := core.CalleeOf(info, a.Call)
+		if callee == nil || callee.Pkg() == nil || callee.Pkg().Path() != "strconv" || (callee.Name() != "Atoi" && callee.Name() != "ParseInt") {
+			return ""
+		}
+		from = "strconv." + callee.Name()
+	}
+	return from
 }
 
 // libLenFact: library facts about the length of the base expression.
